@@ -68,8 +68,8 @@ func TestVerifStandin_C15T(t *testing.T) {
 			d := driver.NewPostgresDriver()
 			rep.Evaluations++
 			if !driver.PostgresTable(d.Base) {
-				fail("postgres-table-contract", fmt.Sprintf("NewPostgresDriver(): the table does not satisfy driver.PostgresTable (builtin=%v rang-only-at-range=%v list-at-list=%v fuzzy=%v boost=%v); registered: %s",
-					driver.Builtin(d.Base), driver.RangAt(d.Base), driver.ListAt(d.Base), driver.Registered(d.Base, expr.Fuzzy), driver.Registered(d.Base, expr.Boost), describe(d.Base)))
+				fail("postgres-table-contract", fmt.Sprintf("NewPostgresDriver(): the table does not satisfy driver.PostgresTable (builtin=%v rang-only-at-range=%v list-at-list=%v leaf-functions-agree=%v fuzzy=%v boost=%v); registered: %s",
+					driver.Builtin(d.Base), driver.RangAt(d.Base), driver.ListAt(d.Base), driver.LeafFnsAgree(d.Base), driver.Registered(d.Base, expr.Fuzzy), driver.Registered(d.Base, expr.Boost), describe(d.Base)))
 			}
 			// a fresh driver must not share its table with the package-level one
 			d.RenderFNs[expr.Fuzzy] = func(l, r string) (string, error) { return l, nil }
